@@ -39,7 +39,7 @@ Section Limb.
   Definition l_add (p b c : elt) : elt :=
     let '(a, r) := L.add_c k b c in if r || l_ge a p then fst (L.sub_c k a p) else a.
   Definition l_sub (p b c : elt) : elt :=
-    if L.lt k b c then fst (L.add_c k (fst (L.sub_c k p c)) b) else fst (L.sub_c k b c).
+    if L.lt k b c then fst (L.add_c k (fst (L.sub_c k b c)) p) else fst (L.sub_c k b c).   (* rmsub.h as repaired by fix-6 *)
   Definition l_subin (p a b : elt) : elt :=
     if L.lt k a b then fst (L.add_c k a (fst (L.sub_c k p b))) else fst (L.sub_c k a b).
   Definition l_neg (p b : elt) : elt := if L.eqb k b (L.zero k) then L.zero k else fst (L.sub_c k p b).
